@@ -2,6 +2,7 @@
 #![allow(clippy::all)]
 pub mod campaign;
 pub mod corpus;
+pub mod fuzz;
 pub mod gener;
 pub mod hooks;
 pub mod monitors;
